@@ -50,6 +50,7 @@ type c10Call struct {
 	Counter     uint64
 	Keys        map[string]string
 	Already     bool
+	Data        []byte // seal: the envelope handed to the caller
 }
 
 func (c c10Call) String() string {
@@ -205,6 +206,7 @@ func c10Exec(ctx context.Context, v *vStore, w *c10World, c c10Call) (out c10Cal
 			} else {
 				_, h := openHeadersAsMember(g, d)
 				out.Counter = h.Counter
+				out.Data = d
 			}
 		case "readkeys":
 			out.Keys = c10KeysOf(v, w)
@@ -223,10 +225,11 @@ type c10Ack struct {
 	maxSeal    map[int]uint64         // group -> highest counter handed out
 	keys       map[string]string      // key name -> value handed out
 	putgroup   map[int]bool
+	sealed     map[int][][]byte // group -> envelopes handed to the caller (the author can open its own messages)
 }
 
 func newC10Ack() *c10Ack {
-	return &c10Ack{registered: map[int]bool{}, opened: map[int]map[int][]byte{}, slides: map[int]int{}, maxSeal: map[int]uint64{}, keys: map[string]string{}, putgroup: map[int]bool{}}
+	return &c10Ack{registered: map[int]bool{}, opened: map[int]map[int][]byte{}, slides: map[int]int{}, maxSeal: map[int]uint64{}, keys: map[string]string{}, putgroup: map[int]bool{}, sealed: map[int][][]byte{}}
 }
 
 func (a *c10Ack) clone() *c10Ack {
@@ -251,6 +254,9 @@ func (a *c10Ack) clone() *c10Ack {
 	}
 	for k, v := range a.putgroup {
 		b.putgroup[k] = v
+	}
+	for k, v := range a.sealed {
+		b.sealed[k] = append([][]byte(nil), v...)
 	}
 	return b
 }
@@ -277,6 +283,9 @@ func (a *c10Ack) absorb(c c10Call, counted bool) {
 	case "seal":
 		if c.Counter > a.maxSeal[c.Group] {
 			a.maxSeal[c.Group] = c.Counter
+		}
+		if c.Data != nil && counted {
+			a.sealed[c.Group] = append(a.sealed[c.Group], c.Data)
 		}
 	case "readkeys":
 		for k, v := range c.Keys {
@@ -377,6 +386,18 @@ func c10CheckCrashPoint(ctx context.Context, rep *verifkit.Report, w *c10World, 
 			_, h := openHeadersAsMember(g, d)
 			if h.Counter <= ack.maxSeal[gi] {
 				rep.Violate("C10/counter-reused-after-restart", fmt.Sprintf("group %d: envelope sealed after restart carries counter %d, an envelope with counter %d was handed out before the crash", gi, h.Counter, ack.maxSeal[gi]), wit(""))
+			}
+		}
+		// (e) every envelope the device sealed and handed to its caller before the stop was openable by its author (who
+		// reads its own messages back from the log): each on its own restarted copy
+		for gi, envs := range ack.sealed {
+			for ei, d := range envs {
+				ve := restart()
+				res := ve.openEnv(ctx, w.groups[gi], d, cidOf(d))
+				rep.Eval(1)
+				if res.err != nil || !sameBytes(res.payload, []byte("victim")) {
+					rep.Violate("C10/own-message-lost", fmt.Sprintf("group %d: envelope %d sealed by this device and handed to the caller before the stop does not open on the device after restart: %v", gi, ei+1, res.err), wit(""))
+				}
 			}
 		}
 		// (b) every message the statement says is openable and not yet opened: each on its own restarted copy
